@@ -339,4 +339,41 @@ Section WithRegexp.
       rewrite atom_eqb_sym in E1. apply atom_eqb_trans with a; assumption.
     - rewrite H1, H2. exact Logic.I.
   Qed.
+
+  Lemma run_not_incomplete : forall cs a, In (CElem (KAtom a)) cs -> run re cs <> RIncomplete.
+  Proof.
+    intros cs a Ha E. unfold run in E.
+    destruct (run_state false cs (fun h => False_ind _ (Bool.diff_false_true h))) as (I & SK & _ & _).
+    pose proof (finish_spec false _ I SK) as F. rewrite E in F. destruct F as [F1 F2].
+    destruct (fold_atom (schedule cs) init a (inv_init false) (schedule_wf cs)
+                (or_introl (schedule_has_atom cs a Ha))) as [X|(w & X)]; unfold accumulate in *; congruence.
+  Qed.
+
+  (* an atom that violates a conjunct is rejected, for every conjunction and operand *)
+  Theorem reject_complete : forall cs a, sat_all re a cs = false -> run_with re cs a = RBottom.
+  Proof.
+    intros cs a H. unfold run_with.
+    assert (Hin : In (CElem (KAtom a)) (cs ++ [CElem (KAtom a)])) by (apply in_or_app; right; left; reflexivity).
+    pose proof (run_not_incomplete _ a Hin) as NI.
+    destruct (run re (cs ++ [CElem (KAtom a)])) as [| |w] eqn:E; [reflexivity|contradiction|].
+    exfalso. pose proof (accept_sound _ w E) as S. rewrite sat_all_app in S.
+    apply andb_true_iff in S. destruct S as [S1 S2]. cbn in S2. rewrite andb_true_r in S2.
+    rewrite (sat_all_eqb_l w a cs S2) in S1. congruence.
+  Qed.
+
+  (* int and float literals are distinct kinds, both are numbers *)
+  Lemma int_float_distinct : forall z d,
+    sat re (AInt z) (CElem (KAtom (AFloat d))) = false /\
+    sat re (AFloat d) (CElem (KAtom (AInt z))) = false /\
+    sat re (AInt z) (CElem (KType TFloat)) = false /\
+    sat re (AFloat d) (CElem (KType TInt)) = false /\
+    sat re (AInt z) (CElem (KType TNumber)) = true /\
+    sat re (AFloat d) (CElem (KType TNumber)) = true /\
+    (forall cs, run_with re (CElem (KAtom (AFloat d)) :: cs) (AInt z) = RBottom) /\
+    (forall cs, run_with re (CElem (KType TFloat) :: cs) (AInt z) = RBottom) /\
+    (forall cs, run_with re (CElem (KAtom (AInt z)) :: cs) (AFloat d) = RBottom) /\
+    (forall cs, run_with re (CElem (KType TInt) :: cs) (AFloat d) = RBottom).
+  Proof.
+    intros z d. repeat split; intros cs; apply reject_complete; reflexivity.
+  Qed.
 End WithRegexp.
